@@ -1,0 +1,494 @@
+//go:build verif
+
+// Contracts for package dbft, read by the verifier in /verif (govc).  This file
+// contains comments only: with the build tag off it is not compiled at all,
+// with the tag on it adds nothing to the package.  Syntax: /verif/DESIGN.md,
+// appendix B.
+
+package dbft
+
+//@ singleton DBFT
+//@ receiver Context = Context.
+//@ receiver Config = Config.
+//@ receiver rtt = Context.rttEstimates.
+//@ receiver cache = cache.
+//@ alias Context.Config = Config.
+//@ runtags [C11]
+
+// ---- interface getters: functions of the receiver (A2: payloads, blocks, keys are immutable) ----
+
+//@ pure ConsensusMessage.ViewNumber
+//@ pure ConsensusMessage.Type
+//@ pure ConsensusMessage.Payload
+//@ pure ConsensusMessage.GetChangeView
+//@ pure ConsensusMessage.GetPrepareRequest
+//@ pure ConsensusMessage.GetPrepareResponse
+//@ pure ConsensusMessage.GetPreCommit
+//@ pure ConsensusMessage.GetCommit
+//@ pure ConsensusMessage.GetRecoveryRequest
+//@ pure ConsensusMessage.GetRecoveryMessage
+//@ pure ConsensusPayload.ValidatorIndex
+//@ pure ConsensusPayload.Height
+//@ pure ConsensusPayload.Hash
+//@ pure ChangeView.NewViewNumber
+//@ pure ChangeView.Reason
+//@ pure PrepareRequest.Timestamp
+//@ pure PrepareRequest.Nonce
+//@ pure PrepareRequest.TransactionHashes
+//@ pure PrepareResponse.PreparationHash
+//@ pure Commit.Signature
+//@ pure PreCommit.Data
+//@ pure Transaction.Hash
+//@ pure Block.Hash
+//@ pure Block.PrevHash
+//@ pure Block.MerkleRoot
+//@ pure Block.Index
+//@ pure Block.Verify
+//@ pure PreBlock.Verify
+//@ pure Config.WatchOnly
+
+// A3: a payload of type X carries an X body.
+//@ axiom bodyChangeView = forallOf(ConsensusPayload, m, implies(m.Type() == ChangeViewType, m.GetChangeView() != nil))
+//@ axiom bodyPrepareRequest = forallOf(ConsensusPayload, m, implies(m.Type() == PrepareRequestType, m.GetPrepareRequest() != nil))
+//@ axiom bodyPrepareResponse = forallOf(ConsensusPayload, m, implies(m.Type() == PrepareResponseType, m.GetPrepareResponse() != nil))
+//@ axiom bodyCommit = forallOf(ConsensusPayload, m, implies(m.Type() == CommitType, m.GetCommit() != nil))
+//@ axiom bodyPreCommit = forallOf(ConsensusPayload, m, implies(m.Type() == PreCommitType, m.GetPreCommit() != nil))
+//@ axiom bodyRecoveryMessage = forallOf(ConsensusPayload, m, implies(m.Type() == RecoveryMessageType, m.GetRecoveryMessage() != nil))
+
+// ---- ghost state ----
+
+//@ ghost gBroadcasts Int
+//@ ghost gLastBcast Ref
+//@ ghost gTimerH Int
+//@ ghost gTimerV Int
+//@ ghost gTimerD Int
+//@ ghost gTimerArms Int
+//@ ghost gClock Int
+
+// ---- predicates ----
+
+//@ pred specF(n) = (n - 1) / 3
+//@ pred specM(n) = n - (n - 1) / 3
+//@ pred nvalid() = len(self.Validators) >= 1 && len(self.Validators) <= 65535
+//@ pred NN() = len(self.Validators)
+//@ pred tablesOK() = len(self.PreparationPayloads) == NN() && len(self.CommitPayloads) == NN()
+//@      && len(self.PreCommitPayloads) == NN() && len(self.ChangeViewPayloads) == NN()
+//@      && len(self.LastChangeViewPayloads) == NN() && len(self.LastSeenMessage) == NN()
+// A4/A8: configuration sanity (what checkConfig establishes plus the stated assumptions).
+//@ pred cfgOK() = self.TimestampIncrement >= 1
+//@      && self.Config.Timer != nil
+//@      && self.Config.GetKeyPair != nil && self.Config.CurrentHeight != nil && self.Config.CurrentBlockHash != nil
+//@      && self.Config.GetValidators != nil && self.Config.NewBlockFromContext != nil && self.Config.NewConsensusPayload != nil
+//@      && self.Config.NewPrepareRequest != nil && self.Config.NewPrepareResponse != nil && self.Config.NewChangeView != nil
+//@      && self.Config.NewCommit != nil && self.Config.NewRecoveryRequest != nil && self.Config.NewRecoveryMessage != nil
+//@      && implies(self.AntiMEVExtensionEnablingHeight >= 0, self.Config.NewPreBlockFromContext != nil && self.Config.ProcessPreBlock != nil && self.Config.NewPreCommit != nil)
+//@      && ((self.Config.MaxTimePerBlock == nil) == (self.Config.SubscribeForTxs == nil))
+//@      && self.Config.TimePerBlock != nil && self.Config.RequestTx != nil && self.Config.StopTxFlow != nil && self.Config.GetTx != nil
+//@      && self.Config.GetVerified != nil && self.Config.VerifyPreBlock != nil && self.Config.VerifyBlock != nil && self.Config.Broadcast != nil
+//@      && self.Config.ProcessBlock != nil && self.Config.WatchOnly != nil
+//@      && self.Config.VerifyPrepareRequest != nil && self.Config.VerifyPrepareResponse != nil && self.Config.VerifyPreCommit != nil && self.Config.VerifyCommit != nil
+//@      && self.AntiMEVExtensionEnablingHeight >= -1 && self.AntiMEVExtensionEnablingHeight <= 4294967295
+//@ pred amev() = self.AntiMEVExtensionEnablingHeight >= 0 && self.AntiMEVExtensionEnablingHeight <= self.BlockIndex
+// cache: every inbox stored is a real object with four maps holding non-nil payloads.
+//@ pred inboxOK(b) = b != nil && !isnil(b.prepare) && !isnil(b.chViews) && !isnil(b.preCommit) && !isnil(b.commit)
+//@      && forall(k, implies(has(b.prepare, k), b.prepare[k] != nil)) && forall(k, implies(has(b.chViews, k), b.chViews[k] != nil))
+//@      && forall(k, implies(has(b.preCommit, k), b.preCommit[k] != nil)) && forall(k, implies(has(b.commit, k), b.commit[k] != nil))
+//@ pred cacheOK() = !isnil(self.cache.mail) && forall(h, implies(has(self.cache.mail, h), inboxOK(self.cache.mail[h])))
+//@ pred heapMono() = forallOf(inbox, b, implies(old(inboxOK(b)), inboxOK(b)))
+//@ pred base() = cfgOK() && cacheOK() && 0 <= self.rttEstimates.idx && self.rttEstimates.idx < 70
+//@      && (self.lastBlockTime == tzero() || (0 <= self.lastBlockTime && self.lastBlockTime <= 4611686018427387904))
+//@      && (self.prepareSentTime == tzero() || (0 <= self.prepareSentTime && self.prepareSentTime <= 4611686018427387904))
+//@ pred wf() = nvalid() && tablesOK() && -1 <= self.MyIndex && self.MyIndex < NN()
+//@      && self.MyIndex == first(self.Config.GetKeyPair(self.Validators))
+//@      && self.PrimaryIndex == emod(self.BlockIndex - self.ViewNumber, NN())
+//@      && !isnil(self.Transactions) && base()
+//@      && self.timePerBlock > 0 && self.timePerBlock <= 68719476736
+//@      && implies(self.Config.MaxTimePerBlock != nil, self.maxTimePerBlock >= self.timePerBlock && self.maxTimePerBlock <= 1099511627776)
+//@      && self.lastBlockTimestamp + self.TimestampIncrement <= 18446744073709551615
+// A-VIEW: the view stays small enough for the exponential timeouts (2^36 ns * 2^26 < 2^63).
+//@ pred aview() = self.ViewNumber <= 24
+// SLOT: what is stored where.
+//@ pred slot() = forall(i, 0, NN(), implies(self.ChangeViewPayloads[i] != nil, self.ChangeViewPayloads[i].Type() == ChangeViewType))
+//@      && forall(i, 0, NN(), implies(self.CommitPayloads[i] != nil, self.CommitPayloads[i].Type() == CommitType && self.CommitPayloads[i].ValidatorIndex() == i))
+//@      && forall(i, 0, NN(), implies(self.PreCommitPayloads[i] != nil, self.PreCommitPayloads[i].Type() == PreCommitType && self.PreCommitPayloads[i].ValidatorIndex() == i))
+//@      && forall(i, 0, NN(), implies(self.PreparationPayloads[i] != nil, self.PreparationPayloads[i].ValidatorIndex() == i))
+//@      && forall(i, 0, NN(), implies(self.PreparationPayloads[i] != nil && self.PreparationPayloads[i].Type() == PrepareRequestType, i == self.PrimaryIndex))
+//@      && implies(!amev(), forall(i, 0, NN(), self.PreCommitPayloads[i] == nil))
+//@      && implies(self.header != nil, self.PreparationPayloads[self.PrimaryIndex] != nil && (!amev() || self.preBlockProcessed))
+//@      && (self.block == nil || self.block == self.header)
+//@      && implies(self.preHeader != nil, self.PreparationPayloads[self.PrimaryIndex] != nil && amev())
+//@      && (self.preBlock == nil || self.preBlock == self.preHeader)
+
+// ---- C06 ----
+
+//@ func (*Context).N
+//@   ensures [C06] result == len(c.Validators)
+//@   modifies nothing
+//@ func (*Context).F
+//@   requires nvalid()
+//@   ensures [C06] result == specF(len(c.Validators))
+//@   modifies nothing
+//@ func (*Context).M
+//@   requires nvalid()
+//@   ensures [C06] result == specM(len(c.Validators))
+//@   modifies nothing
+//@ func (*Context).GetPrimaryIndex
+//@   requires nvalid()
+//@   ensures [C06] @formula result == emod(c.BlockIndex - viewNumber, len(c.Validators))
+//@   ensures [C06] @range 0 <= result && result < len(c.Validators)
+//@   modifies nothing
+
+//@ lemma [C06] faultBound(n) = implies(1 <= n && n <= 65535, 3*specF(n) + 1 <= n && n < 3*(specF(n)+1) + 1)
+//@ lemma [C06] quorumIntersection(n) = implies(1 <= n && n <= 65535, 2*specM(n) - n >= specF(n) + 1)
+//@ lemma [C06] quorumNeedsNoFaulty(n) = implies(1 <= n && n <= 65535, specM(n) <= n - specF(n) && specM(n) >= 1)
+//@ lemma [C06] rotationViews(n, h, v1, v2) = implies(1 <= n && n <= 65535 && 0 <= h && h <= 4294967295 && 0 <= v1 && v1 < v2 && v2 <= 255 && v2 - v1 < n, emod(h - v1, n) != emod(h - v2, n))
+//@ lemma [C06] rotationHeights(n, h1, h2, v) = implies(1 <= n && n <= 65535 && 0 <= h1 && h1 < h2 && h2 <= 4294967295 && 0 <= v && v <= 255 && h2 - h1 < n, emod(h1 - v, n) != emod(h2 - v, n))
+//@ lemma [C06] rotationOnto(n, h, k) = implies(1 <= n && n <= 65535 && 0 <= h && h <= 4294967295 && 0 <= k && k < n, 0 <= emod(h - k, n) && emod(h - k, n) < n && emod(h - emod(h - k, n), n) == k)
+
+// ---- externs: callbacks and interface methods with effects (A2: no effect on the instance) ----
+
+//@ extern Timer.Now
+//@   ghost gClock = result
+//@   ensures result >= 0 && result <= 4611686018427387904
+//@ extern Timer.Reset
+//@   params height, view, d
+//@   ghost gTimerH = height
+//@   ghost gTimerV = view
+//@   ghost gTimerD = d
+//@   ghost gTimerArms = gTimerArms + 1
+//@ extern Config.Broadcast
+//@   params m
+//@   ghost gBroadcasts = gBroadcasts + 1
+//@   ghost gLastBcast = m
+//@ extern Config.NewConsensusPayload
+//@   params ctx, t, body
+//@   ensures result != nil && result.Type() == t && result.Height() == self.BlockIndex && result.ViewNumber() == self.ViewNumber
+//@   ensures result.Payload() != nil
+//@   ensures implies(self.MyIndex >= 0, result.ValidatorIndex() == self.MyIndex)
+//@   ensures implies(t == ChangeViewType, result.GetChangeView() == body)
+//@   ensures implies(t == PrepareRequestType, result.GetPrepareRequest() == body)
+//@   ensures implies(t == PrepareResponseType, result.GetPrepareResponse() == body)
+//@   ensures implies(t == CommitType, result.GetCommit() == body)
+//@   ensures implies(t == PreCommitType, result.GetPreCommit() == body)
+//@ extern Config.NewChangeView
+//@   params v, reason, ts
+//@   ensures result != nil && result.NewViewNumber() == v
+//@ extern Config.NewPrepareRequest
+//@   ensures result != nil
+//@ extern Config.NewPrepareResponse
+//@   params h
+//@   ensures result != nil && result.PreparationHash() == h
+//@ extern Config.NewCommit
+//@   ensures result != nil
+//@ extern Config.NewPreCommit
+//@   ensures result != nil
+//@ extern Config.NewRecoveryRequest
+//@   ensures result != nil
+//@ extern Config.NewRecoveryMessage
+//@   ensures result != nil
+//@ extern Config.GetValidators
+//@   ensures len(result) >= 1 && len(result) <= 65535
+// A4: the key pair callback returns -1 or an index into the list it was given, and the same one for the same list.
+//@ extern Config.GetKeyPair
+//@   pure
+//@   params validators
+//@   ensures -1 <= result0 && result0 < len(validators)
+// A8: the ledger height is below 2^32-1, so that the next height is representable.
+//@ extern Config.CurrentHeight
+//@   ensures result < 4294967295
+// A8: block times are positive, bounded (minimum <= 68 s, maximum <= 18 min) and the maximum is not below the minimum.
+//@ extern Config.TimePerBlock
+//@   ensures result > 0 && result <= 68719476736
+//@ extern Config.MaxTimePerBlock
+//@   ensures result >= self.timePerBlock && result <= 1099511627776
+//@ extern Config.GetVerified
+//@   ensures forall(k, 0, len(result), result[k] != nil)
+//@ extern Config.NewBlockFromContext
+//@   ensures result != nil
+//@ extern Config.NewPreBlockFromContext
+//@   ensures result != nil
+
+// ---- umbrella ----
+
+//@ bundle U
+//@   requires wf() && slot()
+//@   ensures  [C11] @wf wf()
+//@   ensures  [C11] @slot slot()
+//@   ensures  @hist unchanged(self.Validators) && self.BlockIndex == old(self.BlockIndex) && self.ViewNumber >= old(self.ViewNumber) && self.MyIndex == old(self.MyIndex)
+//@   ensures  @heap heapMono()
+
+//@ pred rsor() = self.PreparationPayloads[self.PrimaryIndex] != nil
+//@ pred notWatchOnly() = self.MyIndex >= 0 && !self.Config.WatchOnly()
+//@ pred hasAllTx() = len(self.TransactionHashes) == len(self.Transactions)
+
+// ---- more externs ----
+
+// A3: a freshly built payload already carries this node's index, so setting it again changes nothing.
+//@ extern ConsensusPayload.SetValidatorIndex
+//@   requires recv.ValidatorIndex() == arg0
+//@ extern RecoveryMessage.GetChangeViews
+//@   ensures forall(k, 0, len(result), result[k] != nil)
+//@ extern RecoveryMessage.GetPrepareResponses
+//@   ensures forall(k, 0, len(result), result[k] != nil)
+//@ extern RecoveryMessage.GetPreCommits
+//@   ensures forall(k, 0, len(result), result[k] != nil)
+//@ extern RecoveryMessage.GetCommits
+//@   ensures forall(k, 0, len(result), result[k] != nil)
+
+// ---- context.go ----
+
+//@ func (*Context).CountCommitted
+//@   requires wf()
+//@   loop 1: invariant 0 <= count && count <= i
+//@   ensures 0 <= count && count <= len(c.CommitPayloads)
+//@   modifies nothing
+//@ func (*Context).CountFailed
+//@   requires wf()
+//@   loop 1: invariant 0 <= count && count <= i
+//@   ensures 0 <= count && count <= len(c.LastSeenMessage)
+//@   modifies nothing
+
+//@ func emptyReusableSlice
+//@   requires n >= 0
+//@   ensures len(result) == n && forall(k, 0, n, result[k] == nil)
+//@   modifies nothing
+
+//@ func (*Context).reset
+//@   requires base() && implies(view > 0, wf() && slot())
+//@   requires ts + self.TimestampIncrement <= 18446744073709551615
+//@   ensures [C11] @wf wf()
+//@   ensures [C11] @slot slot()
+//@   ensures self.ViewNumber == view
+//@   ensures implies(view > 0, unchanged(self.Validators) && self.BlockIndex == old(self.BlockIndex) && self.MyIndex == old(self.MyIndex))
+//@   modifies Context.*, heap HeightView.*
+//@   loop 1: invariant len(c.LastChangeViewPayloads) == NN() && len(c.ChangeViewPayloads) == NN() && unchanged(c.ChangeViewPayloads, c.Validators)
+
+//@ func (*Context).Fill
+//@   requires wf()
+//@   loop 1: invariant len(c.TransactionHashes) == len(txx) && !isnil(c.Transactions)
+//@   ensures wf()
+//@   ensures implies(!result, self.Config.MaxTimePerBlock != nil)
+//@   modifies Context.Nonce, Context.Timestamp, Context.TransactionHashes, Context.Transactions, gClock
+
+//@ pred canMakeHeader() = rsor() && (!amev() || self.preBlockProcessed)
+//@ func (*Context).CreateBlock
+//@   requires wf() && slot()
+//@   ensures result == c.block
+//@   ensures implies(old(canMakeHeader()) || old(c.block) != nil, result != nil)
+//@   ensures wf() && slot()
+//@   loop 1: invariant len(txx) == len(c.TransactionHashes) && c.block != nil
+//@   modifies Context.block, Context.header
+//@ func (*Context).CreatePreBlock
+//@   requires wf() && slot() && amev()
+//@   ensures result == c.preBlock
+//@   ensures implies(old(rsor()) || old(c.preBlock) != nil, result != nil)
+//@   ensures wf() && slot()
+//@   loop 1: invariant len(txx) == len(c.TransactionHashes) && c.preBlock != nil
+//@   modifies Context.preBlock, Context.preHeader
+//@ func (*Context).MakeHeader
+//@   requires wf() && slot()
+//@   ensures result == c.header
+//@   ensures implies(old(canMakeHeader()) || old(c.header) != nil, result != nil)
+//@   ensures implies(result != nil, old(canMakeHeader()))
+//@   ensures implies(old(c.header) != nil, result == old(c.header))
+//@   modifies Context.header
+//@ func (*Context).MakePreHeader
+//@   requires wf() && slot() && amev()
+//@   ensures result == c.preHeader
+//@   ensures implies(old(rsor()) || old(c.preHeader) != nil, result != nil)
+//@   ensures implies(result != nil, old(rsor()))
+//@   ensures implies(old(c.preHeader) != nil, result == old(c.preHeader))
+//@   modifies Context.preHeader
+
+// ---- send.go ----
+
+//@ func (*DBFT).broadcast
+//@   requires wf() && msg != nil
+//@   requires [C13] @silent notWatchOnly()
+//@   requires msg.ValidatorIndex() == self.MyIndex
+//@   modifies gBroadcasts, gLastBcast
+
+//@ func (*DBFT).sendPrepareRequest
+//@   use U
+//@   requires [C13] @silent notWatchOnly()
+//@   requires self.MyIndex == self.PrimaryIndex
+//@   wraps d.ViewNumber+1 unless aview()
+//@   wraps d.timePerBlock<<(d.ViewNumber+1) unless aview()
+//@ func (*DBFT).sendChangeView
+//@   use U
+//@   wraps d.ViewNumber+1 unless aview()
+//@   wraps c.ViewNumber+1 unless aview()
+//@   wraps newView+1 unless aview()
+//@   wraps d.timePerBlock<<(newView+1) unless aview()
+//@ func (*DBFT).sendPrepareResponse
+//@   requires wf() && slot()
+//@   ensures [C11] @wf wf()
+//@   ensures [C11] @slot slot()
+//@   requires [C13] @silent notWatchOnly()
+//@   requires rsor()
+//@   modifies Context.PreparationPayloads, gBroadcasts, gLastBcast
+//@ func (*DBFT).sendPreCommit
+//@   requires wf() && slot()
+//@   ensures [C11] @wf wf()
+//@   ensures [C11] @slot slot()
+//@   requires [C13] @silent notWatchOnly()
+//@   requires amev()
+//@   modifies Context.PreCommitPayloads, Context.preBlock, Context.preHeader, gBroadcasts, gLastBcast
+//@ func (*DBFT).sendCommit
+//@   requires wf() && slot()
+//@   ensures [C11] @wf wf()
+//@   ensures [C11] @slot slot()
+//@   requires [C13] @silent notWatchOnly()
+//@   modifies Context.CommitPayloads, Context.header, gBroadcasts, gLastBcast
+//@ func (*DBFT).sendRecoveryRequest
+//@   requires wf() && slot()
+//@   ensures [C11] @wf wf()
+//@   requires [C13] @silent notWatchOnly()
+//@   modifies Context.MissingTransactions, Context.Transactions, gBroadcasts, gLastBcast, gClock
+//@ func (*Context).makeRecoveryMessage
+//@   requires wf() && slot()
+//@   ensures result != nil && (result.ValidatorIndex() == self.MyIndex || self.MyIndex < 0)
+//@   modifies nothing
+//@ func (*DBFT).sendRecoveryMessage
+//@   requires wf() && slot()
+//@   requires [C13] @silent notWatchOnly()
+//@   modifies gBroadcasts, gLastBcast
+
+// ---- check.go ----
+
+//@ func (*DBFT).checkPrepare
+//@   use U
+//@   requires [C13] @silent notWatchOnly()
+//@   loop 1: invariant 0 <= count && count <= idx && implies(hasRequest, rsor())
+//@ func (*DBFT).checkPreCommit
+//@   use U
+//@   requires amev() && rsor()
+//@   loop 1: invariant 0 <= count && count <= idx
+//@ func (*DBFT).checkCommit
+//@   use U
+//@   requires canMakeHeader()
+//@   loop 1: invariant 0 <= count && count <= idx
+//@ func (*DBFT).checkChangeView
+//@   use U
+//@   loop 1: invariant 0 <= count && count <= idx
+
+// ---- dbft.go ----
+
+//@ func (*DBFT).addTransaction
+//@   use U
+//@   requires tx != nil && rsor()
+//@ func (*DBFT).Start
+//@   requires cfgOK() && 0 <= self.rttEstimates.idx && self.rttEstimates.idx < 70
+//@   requires self.lastBlockTime == tzero() && self.prepareSentTime == tzero()
+//@   requires ts + self.TimestampIncrement <= 18446744073709551615
+//@   ensures [C11] @wf wf()
+//@   ensures [C11] @slot slot()
+//@ func (*DBFT).Reset
+//@   requires base()
+//@   requires ts + self.TimestampIncrement <= 18446744073709551615
+//@   ensures [C11] @wf wf()
+//@   ensures [C11] @slot slot()
+//@ pred sameHeight() = unchanged(self.Validators) && self.BlockIndex == old(self.BlockIndex) && self.MyIndex == old(self.MyIndex)
+//@ func (*DBFT).initializeConsensus
+//@   requires base() && implies(view > 0, wf() && slot() && view > self.ViewNumber)
+//@   requires ts + self.TimestampIncrement <= 18446744073709551615
+//@   ensures [C11] @wf wf()
+//@   ensures [C11] @slot slot()
+//@   ensures self.ViewNumber >= view
+//@   ensures implies(view > 0, sameHeight())
+//@   ensures @heap heapMono()
+//@   loop 1: invariant wf() && slot() && self.ViewNumber >= view && implies(view > 0, sameHeight()) && heapMono() && inboxOK(msgs)
+//@   loop 2: invariant wf() && slot() && self.ViewNumber >= view && implies(view > 0, sameHeight()) && heapMono() && inboxOK(msgs)
+//@   loop 3: invariant wf() && slot() && self.ViewNumber >= view && implies(view > 0, sameHeight()) && heapMono() && inboxOK(msgs)
+//@   loop 4: invariant wf() && slot() && self.ViewNumber >= view && implies(view > 0, sameHeight()) && heapMono() && inboxOK(msgs)
+//@   wraps d.ViewNumber+1 unless aview()
+//@   wraps d.timePerBlock<<(d.ViewNumber+1) unless aview()
+//@   wraps timeout-diff unless aview()
+//@   wraps timeout-d.rttEstimates.avg/2 unless aview() && 0 <= self.rttEstimates.avg && self.rttEstimates.avg <= 2305843009213693952 && self.lastBlockTime != tzero()
+//@   wraps d.lastBlockIndex+1
+//@ func (*DBFT).OnTransaction
+//@   use U
+//@   requires tx != nil
+//@ func (*DBFT).OnTimeout
+//@   use U
+//@ func (*DBFT).OnNewTransaction
+//@   use U
+//@ func (*DBFT).onTimeout
+//@   use U
+//@ func (*DBFT).OnReceive
+//@   use U
+//@   requires msg != nil
+//@ pred admitted(msg) = msg != nil && msg.ValidatorIndex() < NN() && msg.Payload() != nil && msg.Height() == self.BlockIndex
+//@ func (*DBFT).onPrepareRequest
+//@   use U
+//@   requires admitted(msg) && msg.Type() == PrepareRequestType && msg.ViewNumber() <= self.ViewNumber
+//@ func (*DBFT).onPrepareResponse
+//@   use U
+//@   requires admitted(msg) && msg.Type() == PrepareResponseType && msg.ViewNumber() <= self.ViewNumber
+//@ func (*DBFT).onChangeView
+//@   use U
+//@   requires admitted(msg) && msg.Type() == ChangeViewType
+//@ func (*DBFT).onPreCommit
+//@   use U
+//@   requires admitted(msg) && msg.Type() == PreCommitType && msg.ViewNumber() <= self.ViewNumber && amev()
+//@ func (*DBFT).onCommit
+//@   use U
+//@   requires admitted(msg) && msg.Type() == CommitType && msg.ViewNumber() <= self.ViewNumber
+//@ func (*DBFT).onRecoveryRequest
+//@   use U
+//@   requires admitted(msg)
+//@ func (*DBFT).onRecoveryMessage
+//@   use U
+//@   requires admitted(msg) && msg.Type() == RecoveryMessageType
+//@   loop 1: invariant wf() && slot() && sameHeight() && self.ViewNumber >= old(self.ViewNumber) && 0 <= validChViews && validChViews <= idx && heapMono()
+//@   loop 2: invariant wf() && slot() && sameHeight() && self.ViewNumber >= old(self.ViewNumber) && 0 <= validPrepResp && validPrepResp <= idx && heapMono()
+//@   loop 3: invariant wf() && slot() && sameHeight() && self.ViewNumber >= old(self.ViewNumber) && 0 <= validPreCommits && validPreCommits <= idx && heapMono()
+//@   loop 4: invariant wf() && slot() && sameHeight() && self.ViewNumber >= old(self.ViewNumber) && 0 <= validCommits && validCommits <= idx && heapMono()
+//@ func (*DBFT).processMissingTx
+//@   requires wf()
+//@   loop 1: invariant !isnil(self.Transactions)
+//@   ensures wf()
+//@   modifies Context.MissingTransactions, Context.Transactions
+//@ func (*DBFT).createAndCheckBlock
+//@   use U
+//@   requires rsor()
+//@   ensures implies(result, unchanged(self.PreparationPayloads, self.PrimaryIndex, self.ViewNumber, self.TransactionHashes, self.Transactions))
+//@ func (*DBFT).updateExistingPayloads
+//@   requires wf() && slot() && msg != nil && !rsor()
+//@   loop 1: invariant wf() && slot() && !rsor()
+//@   ensures wf() && slot()
+//@   modifies Context.PreparationPayloads, Context.CommitPayloads, Context.PreCommitPayloads, Context.header, Context.preHeader, Context.preBlock
+//@ func (*DBFT).verifyPreCommitPayloadsAgainstPreBlock
+//@   requires wf() && slot()
+//@   loop 1: invariant wf() && slot()
+//@   ensures wf() && slot()
+//@   modifies Context.PreCommitPayloads, Context.preHeader, Context.preBlock
+//@ func (*DBFT).verifyCommitPayloadsAgainstHeader
+//@   requires wf() && slot()
+//@   loop 1: invariant wf() && slot()
+//@   ensures wf() && slot()
+//@   modifies Context.CommitPayloads, Context.header
+//@ func (*DBFT).changeTimer
+//@   requires wf()
+//@   modifies gTimerH, gTimerV, gTimerD, gTimerArms
+//@ func (*DBFT).extendTimer
+//@   requires wf() && slot() && 0 <= count && count <= 4
+//@   modifies nothing
+
+// ---- helpers.go, rtt.go ----
+
+//@ func (*cache).getHeight
+//@   requires cacheOK()
+//@   ensures cacheOK() && (result == nil || inboxOK(result))
+//@   modifies cache.mail
+//@ func (*cache).addMessage
+//@   requires cacheOK() && m != nil
+//@   ensures cacheOK() && heapMono()
+//@   modifies cache.mail, heap inbox.*
+//@ func (*rtt).addTime
+//@   requires 0 <= r.idx && r.idx < 70
+//@   ensures 0 <= r.idx && r.idx < 70
+//@   modifies Context.rttEstimates.*
+//@   wraps 2*old
+//@   wraps t-old
+//@   wraps r.avg+(t-old)/time.Duration(len(r.times))
